@@ -304,6 +304,11 @@ class AIOKafkaClient:
                 log.warning(
                     "Unable to request metadata from node with id %s: %r", node_id, err
                 )
+                if isinstance(err, asyncio.TimeoutError):
+                    # close connection so it is renewed in next request (same
+                    # as in ``send()``), a broker that went silent on it would
+                    # otherwise be asked again and again over the same one
+                    conn.close(reason=CloseReason.CONNECTION_TIMEOUT)
                 continue
 
             # don't update the cluster if there are no valid nodes...the topic
